@@ -2,9 +2,9 @@ package main
 
 // Registry of checks: which harness runs on which configurations per tier.
 
-const nCoreTables = 28
+const nCoreTables = 32
 
-func curlyOnly(tbl int) bool { return tbl == 2 || tbl == 3 || tbl == 6 || tbl == 18 || tbl == 22 }
+func curlyOnly(tbl int) bool { return tbl == 2 || tbl == 3 || tbl == 6 || tbl == 18 || tbl == 22 || tbl == 28 }
 func hasMedia(tbl int) bool  { return tbl == 8 || tbl == 9 }
 
 var commonAssumptions = []string{
@@ -136,7 +136,7 @@ func properties() map[string]*propDef {
 		ID: "C18",
 		Items: func(tier string, seed int) []item {
 			var out []item
-			for _, tbl := range []int{0, 1, 7, 8, 9, 10, 15, 16, 19, 21, 24, 25, 26, 27} {
+			for _, tbl := range []int{0, 1, 7, 8, 9, 10, 15, 16, 19, 21, 24, 25, 26, 27, 29, 30} {
 				st18 := 0
 				if tier == "thorough" {
 					st18 = 10
@@ -151,7 +151,7 @@ func properties() map[string]*propDef {
 			}
 			return out
 		},
-		Bounds:         map[string]interface{}{"path_bytes": 12, "segments": 3, "method_bytes": 7, "content_type_bytes": 6, "accept_bytes": 8, "tables": 14},
+		Bounds:         map[string]interface{}{"path_bytes": 12, "segments": 3, "method_bytes": 7, "content_type_bytes": 6, "accept_bytes": 8, "tables": 16},
 		Assumptions:    commonAssumptions,
 		Rule:           "core tables of the common fragment (literal roots, literal/plain-variable segments) x stage; twin containers (CurlyRouter, RouterJSR311) get the same symbolic request",
 		RequiredCovers: []string{"invoked", "not-invoked"},
@@ -202,7 +202,7 @@ func properties() map[string]*propDef {
 		ID: "C17",
 		Items: func(tier string, seed int) []item {
 			var out []item
-			for _, tbl := range []int{0, 1, 7, 10, 16, 19, 21, 24, 25, 26} {
+			for _, tbl := range []int{0, 1, 7, 10, 16, 19, 21, 24, 25, 26, 29, 30} {
 				for router := 0; router < 2; router++ {
 					r := router
 					if tier == "thorough" {
@@ -213,7 +213,7 @@ func properties() map[string]*propDef {
 			}
 			return out
 		},
-		Bounds:         map[string]interface{}{"path_bytes": 12, "segments": 3, "methods": "all methods of the table plus one foreign method", "tables": 10},
+		Bounds:         map[string]interface{}{"path_bytes": 12, "segments": 3, "methods": "all methods of the table plus one foreign method", "tables": 12},
 		Assumptions:    commonAssumptions,
 		Rule:           "tables of the fragment (literal roots incl. nested, literal/plain-variable segments) x routers; per symbolic URL one dispatch per method, one OPTIONS dispatch through OPTIONSFilter, and a filter-less twin",
 		RequiredCovers: []string{"405", "options-nonempty"},
@@ -226,13 +226,14 @@ func properties() map[string]*propDef {
 				out = append(out, item{Harness: "H_C08", Cfg: []int{cfg}, Label: "allowed domains = cfg%3 symbolic entries; predicate configured iff cfg>=3"})
 				out = append(out, item{Harness: "H_C08", Cfg: []int{100 + cfg}, Label: "the same with Origin, entries and predicate string of <= 11 bytes"})
 			}
+			out = append(out, item{Harness: "H_C08_two", Cfg: []int{0}, Label: "two CORS filters in one chain: container (no restriction) and WebService (one symbolic domain, cookies)"})
 			return out
 		},
 		Bounds: map[string]interface{}{"origin_bytes": "6 and 11", "allowed_domain_entries": "0..2 symbolic strings of <= 6 / <= 11 bytes", "predicate": "nil or equality with a symbolic string of <= 6 / <= 11 bytes",
 			"method_bytes": 7, "access_control_request_method_bytes": 4},
 		Assumptions:    append([]string{"AllowedDomainFunc ranges over the predicates 'equals s' for a symbolic string s (uninterpreted predicates are not expressible in QF_BV)"}, commonAssumptions...),
 		Rule:           "CORS filter as container filter in front of a marker filter and a 3-route service, plus a filter-less twin; Origin, allowed-domain entries, predicate string, cookies flag, method and requested method symbolic",
-		RequiredCovers: []string{"allowed", "refused", "granted", "not-granted"},
+		RequiredCovers: []string{"allowed", "refused", "granted", "not-granted", "inner-refuses", "inner-allows"},
 	}
 	m["C09"] = &propDef{
 		ID: "C09",
@@ -310,14 +311,14 @@ func properties() map[string]*propDef {
 		ID: "C07",
 		Items: func(tier string, seed int) []item {
 			var out []item
-			for entry := 0; entry < 4; entry++ {
+			for entry := 0; entry < 5; entry++ {
 				for cenc := 0; cenc < 2; cenc++ {
 					for renc := 0; renc < 3; renc++ {
-						if entry >= 2 && renc != 0 {
+						if (entry == 2 || entry == 3) && renc != 0 {
 							continue // plain handlers have no route
 						}
 						for kind := 0; kind < 4; kind++ {
-							if entry >= 2 && kind == 1 {
+							if (entry == 2 || entry == 3) && kind == 1 {
 								continue
 							}
 							provs := []int{(entry + cenc + renc + kind + seed) % 3}
@@ -326,7 +327,7 @@ func properties() map[string]*propDef {
 							}
 							for _, p := range provs {
 								out = append(out, item{Harness: "H_C07", Cfg: []int{entry, cenc, renc, kind, p},
-									Label: "entry (Dispatch, ServeHTTP, Handle, HandleWithFilter), container encoding, route setting (unset/off/on), outcome kind (handler, routing error, panic before/after output), provider"})
+									Label: "entry (Dispatch, ServeHTTP, Handle, HandleWithFilter, nested behind an encoding outer container), container encoding, route setting (unset/off/on), outcome kind (handler, routing error, panic before/after output), provider"})
 							}
 						}
 					}
@@ -339,7 +340,7 @@ func properties() map[string]*propDef {
 			"ServeMux is modelled by the Go 1.21 matching rules", "sync.Pool is a LIFO multiset stub"}, commonAssumptions...),
 		Rule:           "entry point x container switch x route switch x outcome kind x provider (quick: one provider per combination chosen by seed; thorough: all three), Accept-Encoding, payload chunks and a pre-set Content-Encoding symbolic",
 		Exhaustive:     true,
-		RequiredCovers: []string{"encoded", "identity", "preset", "escaped"},
+		RequiredCovers: []string{"encoded", "identity", "preset", "escaped", "broken-client", "after-warmup"},
 	}
 	m["C10"] = &propDef{
 		ID: "C10",
@@ -352,9 +353,9 @@ func properties() map[string]*propDef {
 			for _, sh := range shapes {
 				for recov := 0; recov < 2; recov++ {
 					for enc := 0; enc < 2; enc++ {
-						for entry := 0; entry < 2; entry++ {
+						for entry := 0; entry < 3; entry++ {
 							out = append(out, item{Harness: "H_C10", Cfg: []int{sh[0], sh[1], sh[2], recov, enc, entry},
-								Label: "container/service/route filter counts, recovery on, container encoding on, entry (Dispatch/ServeHTTP)"})
+								Label: "container/service/route filter counts, recovery on, container encoding on, entry (Dispatch, ServeHTTP, Dispatch of a request that fails routing)"})
 						}
 					}
 				}
@@ -376,7 +377,7 @@ func properties() map[string]*propDef {
 			add := func(router int, ops ...int) {
 				cfg := []int{0, 0, 0, 0, router}
 				copy(cfg, ops)
-				out = append(out, item{Harness: "H_C11", Cfg: cfg, Label: "history op1..op4 (10+i Add, 30+i Remove, 50+i Route, 70+i RemoveRoute on root menu entry i; 90 Handle(/plain)), router"})
+				out = append(out, item{Harness: "H_C11", Cfg: cfg, Label: "history op1..op4 (10+i Add, 30+i Remove, 50+i Route GET /x, 70+i RemoveRoute GET /x, 110+i Route GET /x/ on root menu entry i; 90 Handle(/plain)), router"})
 			}
 			for i := 0; i < n; i++ {
 				add(0, 10+i)
@@ -384,6 +385,8 @@ func properties() map[string]*propDef {
 				add(0, 10+i, 50+i, 70+i)
 				add(0, 10+i, 50+i, 50+i, 70+i)
 				add(0, 10+i, 50+i, 50+i)
+				add(0, 10+i, 50+i, 110+i, 70+i)
+				add(0, 10+i, 110+i, 50+i)
 				add(0, 10+i, 90)
 				for j := 0; j < n; j++ {
 					if i == j {
